@@ -68,9 +68,9 @@ type nodeInfo struct {
 
 // Shape is a cheap structural summary used for the vacuity events.
 type Shape struct {
-	Nodes    map[uint16]int    // nodes per level
-	Fanout   map[string]int    // "level/key" -> number of children (level>=1)
-	TopLevel int               // -1 when the store is empty
+	Nodes    map[uint16]int // nodes per level
+	Fanout   map[string]int // "level/key" -> number of children (level>=1)
+	TopLevel int            // -1 when the store is empty
 }
 
 func shapeOf(dump []sumtree.VerifEntry) Shape {
